@@ -1,6 +1,7 @@
 package props
 
 import (
+	"bytes"
 	"context"
 	"encoding/json"
 	"fmt"
@@ -9,6 +10,7 @@ import (
 	"strings"
 	"sync"
 	"testing"
+	"time"
 
 	goat "github.com/avos-io/goat"
 	"github.com/avos-io/goat/gen/goatorepo"
@@ -716,3 +718,95 @@ func execC16Attach(t *testing.T, c C16Attach) (v Verdict) {
 }
 
 func TestC16Attach(t *testing.T) { checkProp(t, "C16", "attach", genC16Attach, execC16Attach) }
+
+// ---- C16 write fault: one proxy-to-peer write fails in the middle of a relayed stream ----------------
+
+// C16WriteFault: a server-streaming call relayed client -> proxy -> (demux) server; the handler sends N messages; the
+// proxy's write number FailJ towards the client fails once, with an error of a drawn kind (some look transient:
+// timeouts). Whatever the proxy does about the connection, the caller must not be handed a stream with a hole in it:
+// what it receives is a prefix of what the handler sent, and io.EOF only after all of it.
+type C16WriteFault struct {
+	N       int    `json:"n"`
+	FailJ   int    `json:"fail_j"` // index among the body envelopes the proxy writes to the client
+	ErrKind string `json:"err_kind"`
+	Ser     bool   `json:"ser"`
+	Bidi    bool   `json:"bidi"`
+}
+
+func genC16WriteFault(t *rapid.T) C16WriteFault {
+	c := C16WriteFault{N: rapid.IntRange(2, 10).Draw(t, "n"), ErrKind: rapid.SampledFrom(kit.FaultErrKinds).Draw(t, "err_kind"), Ser: rapid.Bool().Draw(t, "ser"), Bidi: rapid.Bool().Draw(t, "bidi")}
+	c.FailJ = rapid.IntRange(0, c.N-1).Draw(t, "fail_j")
+	return c
+}
+
+func execC16WriteFault(t *testing.T, c C16WriteFault) (v Verdict) {
+	defer kit.UseFaultKind(c.ErrKind)()
+	var got [][]byte
+	var end *kit.ErrObs
+	res := kit.Bubble(t, func() {
+		svc := kit.NewSvc()
+		svc.Stream("f", c.Bidi, true, func(s grpcServerStream) error {
+			if _, err := kit.RecvBytes(s); err != nil {
+				return err
+			}
+			for j := 0; j < c.N; j++ {
+				if err := kit.SendBytes(s, []byte{0x16, 0xF0, byte(j)}); err != nil {
+					return err
+				}
+				time.Sleep(time.Millisecond) // one envelope at a time: far below the proxy's queue limit
+			}
+			return nil
+		})
+		w := kit.NewWorld(kit.Topo{Kind: "proxy", Serialize: c.Ser, Clients: 1}, svc, nil, nil)
+		l := w.Links[0]
+		failed := false
+		marker := []byte{0x16, 0xF0, byte(c.FailJ)}
+		l.B.FailWriteIf(func(r *kit.Rpc) bool {
+			if !failed && bytes.Equal(unwrapBytes(r.GetBody().GetData()), marker) {
+				failed = true // a one-off fault
+				return true
+			}
+			return false
+		})
+		ctx, cancel := context.WithTimeout(context.Background(), time.Hour)
+		defer cancel()
+		kind := kit.KindServer
+		if c.Bidi {
+			kind = kit.KindBidi
+		}
+		cs, err := w.Conn(0).NewStream(ctx, kit.StreamDescFor(kind), kit.FullMethod("f"))
+		if err != nil {
+			v.failf("open: %v", err)
+			return
+		}
+		_ = kit.SendBytes(cs, []byte("go"))
+		_ = cs.CloseSend()
+		for {
+			b, err := kit.RecvBytes(cs)
+			if err != nil {
+				e := kit.Observe(err)
+				end = &e
+				break
+			}
+			got = append(got, b)
+		}
+		w.Shutdown()
+		kit.Settle()
+	})
+	if res.Panic != nil {
+		v.failf("panic: %v\n%s", res.Panic, res.Stack)
+	}
+	for j, b := range got {
+		if len(b) != 3 || int(b[2]) != j {
+			v.failf("the caller's receive #%d returned message %v: the relayed stream has a hole (the proxy's write of message #%d had failed once with a %s error)", j, b, c.FailJ, c.ErrKind)
+			break
+		}
+	}
+	if end != nil && end.EOF && len(got) != c.N {
+		v.failf("the relayed stream was reported complete (io.EOF) with %d of its %d messages", len(got), c.N)
+	}
+	v.Info = kit.CaseInfo{Labels: []string{"write-fault", "fault.err=" + c.ErrKind}, NonTrivial: c.FailJ < c.N-1, Key: fmt.Sprintf("%+v", c), Sample: c}
+	return
+}
+
+func TestC16WriteFault(t *testing.T) { checkProp(t, "C16", "write-fault", genC16WriteFault, execC16WriteFault) }
